@@ -92,8 +92,14 @@ def check_C10(res, tier, seed, replay):
             raise vlib.HarnessError('MC_Dimacs violated\n' + r['out'][-3000:])
         res.add_mc('Dimacs.tla: line-by-line reader machine = whole-file meaning (edges in file order, declared endpoints only, error at the first undeclared endpoint), all files within the bound', r)
         exe = harness()
-        files, multi = gen_files(wd, 2, 2 if tier == 'quick' else 3, [1000, 2500] if tier == 'quick' else [15000], 3 if tier != 'quick' else 2, 3, [-1, 0, 1])
-        res.cov['exhaustive_space'] = '%d abstract files (<= %d body lines over <= 2 declared vertices, comments anywhere, weights present/omitted/decimal, with/without trailing newline); %d multigraphs for the validators' % (
+        if tier == 'quick':
+            files, multi = gen_files(wd, 2, 2, [1000, 2500], 2, 3, [-1, 0, 1])
+        else:
+            # <= 2 body lines over 2 declared vertices and three weights, plus <= 3 body lines over 1 declared vertex (endpoints 0..NV+1)
+            files, multi = gen_files(wd, 2, 2, [1000, 2500, 15000], 3, 3, [-1, 0, 1])
+            f3, _ = gen_files(wd, 1, 3, [15000], 1, 0, [-1, 0, 1])
+            files += f3
+        res.cov['exhaustive_space'] = '%d abstract files (<= %d body lines over <= 2 declared vertices, endpoints 0..NV+1, comments anywhere, weights present/omitted/decimal, with/without trailing newline); %d multigraphs for the validators' % (
             len(files), 2 if tier == 'quick' else 3, len(multi))
         fdir = os.path.join(wd, 'files')
         os.makedirs(fdir)
